@@ -4,6 +4,7 @@ CONSTANTS
   NSlots = {"n4"}
   Prog <- MC_Prog
   None = None
+  AsBuiltClean = FALSE
   MaxPre = 1
   MaxPPost = 1
   MaxSTicks = 1
@@ -14,10 +15,10 @@ CONSTANTS
   PrePool = {1}
   Pre2Pool = {2}
   PPool = {4}
-  SPool = {3, 10, 5}
+  SPool = {3, 10}
   SecondSrc = {"P"}
   SecondForkTip = TRUE
   PinLastOnly = TRUE
   Export = TRUE
-INVARIANTS ForkIsExactPrefix NoSharedHeads LaneIsolation StrandTicksDontTouchParent ParentTicksDontTouchStrand PlanIsPure SettleAllOrNothing ImportedSlotsTakeStrandValues ParentChangedSlotsNeverOverwritten BlockingIsSticky ParentStaysReplayable  Inv_Export
+INVARIANTS ForkIsExactPrefix NoSharedHeads LaneIsolation StrandTicksDontTouchParent ParentTicksDontTouchStrand PlanIsPure SettleAllOrNothing ImportedSlotsTakeStrandValues ParentChangedSlotsNeverOverwritten BlockingIsSticky ParentStaysReplayable ImportsReplayCleanly  Inv_Export
 CHECK_DEADLOCK FALSE
